@@ -12,5 +12,6 @@ func main() {
 		"extract": func(out string, _ int64, _ string) error { return extract.Run(cli.Repo, out) },
 		"smoke":   engnode.Smoke,
 		"node":    engnode.Run,
+		"reshare": engnode.RunReshare,
 	})
 }
